@@ -667,18 +667,23 @@ func (r *Renderer) renderText(w util.BufWriter, source []byte, node ast.Node, en
 				_, _ = w.WriteString("<br>\n")
 			}
 		} else if n.SoftLineBreak() {
+			// The break is kept unless the east asian rules say it must be removed.
+			keep := true
 			if r.EastAsianLineBreaks != EastAsianLineBreaksNone && len(value) != 0 {
+				// the text that follows the break may be wrapped in other inline nodes
 				sibling := node.NextSibling()
-				if sibling != nil && sibling.Kind() == ast.KindText {
+				for sibling != nil && sibling.Kind() != ast.KindText {
+					sibling = sibling.FirstChild()
+				}
+				if sibling != nil {
 					if siblingText := sibling.(*ast.Text).Value(source); len(siblingText) != 0 {
 						thisLastRune := util.ToRune(value, len(value)-1)
 						siblingFirstRune, _ := utf8.DecodeRune(siblingText)
-						if r.EastAsianLineBreaks.softLineBreak(thisLastRune, siblingFirstRune) {
-							_ = w.WriteByte('\n')
-						}
+						keep = r.EastAsianLineBreaks.softLineBreak(thisLastRune, siblingFirstRune)
 					}
 				}
-			} else {
+			}
+			if keep {
 				_ = w.WriteByte('\n')
 			}
 		}
